@@ -440,6 +440,10 @@ def run_arena(chk: Check, fjm_run, w: int, blocks: List[Block], with_hex: bool, 
                     break
                 upto = k + 1
                 cur = post
+                if blocks[st["block"]].name.endswith("]"):
+                    # a block with a recorded defect (an aliased call, KF-8): the REAL state after it is not the one the
+                    # preconditions of the following steps were derived from (a wild pointer would be used) - the behaviour ends here
+                    break
             if upto < len(beh):
                 cut += 1
             if upto:
